@@ -140,7 +140,12 @@ def _run(sc, sink, outdir):
     return log
 
 
-def model_runs(tier):
+def model_runs(tier, size="full"):
+    if tier == "thorough" and size == "medium":
+        return [{"module": "MC_Basic", "cfg": "MC_Basic", "workers": 12, "stride": 1,
+                 "constants": {"MaxK": "2", "Objs": "{1, 2}", "MaxRuns": "2", "MaxCb": "1"}},
+                {"module": "MC_Basic", "cfg": "MC_Basic", "workers": 4, "expect_violation": "E_ExactlyOncePerEvaluation",
+                 "constants": {"MaxK": "1", "Objs": "{1}", "MaxRuns": "2", "MaxCb": "1", "Reregister": "TRUE", "Emit": "FALSE"}}]
     if tier == "quick":
         # the model is explored exhaustively; of the longer single-run behaviours every 5th (offset by VERIF_SEED) is replayed
         return [{"module": "MC_Basic", "cfg": "MC_Basic", "workers": 8, "stride": 5,
